@@ -17,7 +17,7 @@ use serde_json::json;
 
 pub fn run(ctx: &Ctx) -> i32 {
     let mon = Mon::new();
-    let n = ctx.tier.pick(150, 3000);
+    let n = ctx.tier.pick(150, 600);
     par_cases(ctx, &mon, "hist", n, |cc, rng, l| {
         let mut case = HistCase::random(rng, ctx.tier.pick(10, 16), 6, 4, cc.idx % 3 == 0);
         case.par = AzksParallelismConfig::disabled();
@@ -31,9 +31,9 @@ pub fn run(ctx: &Ctx) -> i32 {
             "exploration",
             "generated histories; for 1-3 labels x EVERY cut-off epoch from 0 to (latest update epoch - 1): a full transcript (epoch hash; per label lookup, histories for Complete/MostRecent(1)/MostRecent(3) under Default and AllowMissingValues; audits; invalid requests) is taken on the same instance immediately before and after tombstone_value_states; it must be identical except that the label's histories show empty values for tombstoned entries under AllowMissingValues (same versions and epochs, later values intact) and are rejected under Default exactly when they contain a tombstoned entry (an entry whose stored value actually changed). Then 1-3 further publishes (update the label, re-submit, touch others) on the tombstoned instance and on a never-tombstoned twin must give transcripts that differ in the same lines only. Cached and uncached. distinct = (versions total, versions tombstoned, cache); non-trivial = at least one value actually tombstoned",
         )
-        .need("tombstone_runs", ctx.tier.pick(300, 6000))
-        .need("runs_with_tombstoned_values", ctx.tier.pick(150, 3000))
-        .need("transcript_lines_compared", ctx.tier.pick(20_000, 400_000)),
+        .need("tombstone_runs", ctx.tier.pick(300, 1500))
+        .need("runs_with_tombstoned_values", ctx.tier.pick(150, 700))
+        .need("transcript_lines_compared", ctx.tier.pick(20_000, 100_000)),
     )
 }
 
